@@ -27,12 +27,15 @@ HARNESS_PKG = "./note/"
 
 def describe(rec):
     k = rec.get("k", "?")
+    # the verifier values (fresh, warm, shared) that accepted
+    acc = ",".join(r["verifier"] for r in rec.get("runs", []) if r.get("sun_ok"))
+    acc = "[accepted by: %s]" % (acc or "none")
     if k == "case":
-        return "case/%s/%s" % (rec.get("src"), "+".join("%s.%s" % (d[0], d[1]) for d in rec.get("devs", [])) or "honest")
+        return "case/%s/%s%s" % (rec.get("src"), "+".join("%s.%s" % (d[0], d[1]) for d in rec.get("devs", [])) or "honest", acc)
     if k == "mut":
-        return "mut/%s/%s" % (rec.get("src"), rec.get("region"))
+        return "mut/%s/%s%s" % (rec.get("src"), rec.get("region"), acc)
     if k == "signed":
-        return "signed/%s" % rec.get("where")
+        return "signed/%s/origin%s" % (rec.get("where"), rec.get("origin_len", ""))
     if k == "inject":
         return "inject/%s/%s" % (rec.get("src"), rec.get("variant"))
     if k == "det":
@@ -65,17 +68,20 @@ def run(prop, tier):
         outp = os.path.join(wd, "records.ndjson")
         hout = cc.run_harness(binp, "TestNote", {"VERIF_CASES": cases, "VERIF_OUT": outp, "VERIF_TIER": tier,
                                                  "VERIF_SEED": str(sd)}, wd, 900 if tier == "thorough" else 300)
+        mo = re.search(r"ORIGINS (\{.*\})", hout)
+        origins = json.loads(mo.group(1)) if mo else {}
         m = re.search(r"NOTE records=(\d+) lattice_cases=(\d+) signed=(\d+) log_broken=(\w+)", hout)
         if not m:
             raise Inconclusive("harness printed no summary")
         nrec, ncases, nsigned = int(m.group(1)), int(m.group(2)), int(m.group(3))
         t1 = time.time()
-        shards, lines = cc.shard_file(outp, max(2, vlib.NCPU // 2), wd, drop=("msg", "msg_b64", "sun_err", "err"))
+        shards, lines = cc.shard_file(outp, max(2, vlib.NCPU // 2), wd, drop=("msg", "msg_b64", "sun_err", "err", "sun_panic"))
         if len(lines) != nrec:
             raise Inconclusive("record file has %d lines, harness reported %d" % (len(lines), nrec))
         viols, tstates, ttrans = cc.validate_shards("SignedNoteTrace.tla", "SignedNoteTrace.cfg", shards, wd)
         t2 = time.time()
         recs, kinds, distinct = {}, {}, set()
+        state_dep = {"runs": 0, "differ_from_fresh": 0}
         agree = {"both_accept": 0, "both_reject": 0, "independent_only": 0, "sunlight_only": 0, "verifier_panics": 0}
         flags = ("text_ok", "origin_ok", "no_ext", "present", "len_ok", "no_trailing", "hash_ok", "sigalg_ok", "sig_ok")
         for ln in lines:
@@ -88,6 +94,10 @@ def run(prop, tier):
                 agree[key] += 1
                 if r.get("sun_panic"):
                     agree["verifier_panics"] += 1
+                for x in r.get("runs", []):
+                    state_dep["runs"] += 1
+                    if x["sun_ok"] != r["sun_ok"]:
+                        state_dep["differ_from_fresh"] += 1
             if nontrivial(r):
                 distinct.add(hashlib.sha256((r.get("msg") or r.get("msg_b64") or json.dumps(r, sort_keys=True)).encode()
                                             + str(r.get("region", "")).encode()).digest()[:12])
@@ -108,12 +118,15 @@ def run(prop, tier):
                     "byte-level mutation sites; three sources of honest checkpoints: the real log, injected ECDSA, injected RSA) "
                     "realised on real bytes, plus every single-byte mutation of the text and of the RFC 6962 signature blob "
                     "(2 values quick, 3 thorough), blob truncations, raw byte mutations of whole notes, wrong verifier name/key, "
-                    "plus the signing facts. Counted: distinct byte strings (per mutation region) for which the independent "
+                    "each presented to a fresh verifier value, to one that has just verified the genuine checkpoint, and to a "
+                    "long-lived shared one; plus the signing facts, including logs with origins of 200, 255, 256 and 300 bytes. Counted: distinct byte strings (per mutation region) for which the independent "
                     "reading found a well-formed text and the configured key's signature line, i.e. the verifier under test had "
                     "to decide on the RFC 6962 signature itself; signing-fact records count as distinct",
             "samples": samples,
             "by_kind": kinds,
             "decisions": agree,
+            "verifier_histories": state_dep,
+            "origin_lengths": origins,
             "model": mc,
             "lattice_cases_realised": ncases,
             "checkpoints_signed_by_log": nsigned,
